@@ -232,15 +232,31 @@ def run_one(idx, sc, binary, keep=False):
         evs.append(fin)
     finally:
         if not keep:
-            subprocess.run(["chmod", "-R", "u+rwX", base], capture_output=True)
+            for dp, dn, fn in os.walk(base):
+                try:
+                    os.chmod(dp, 0o755)
+                except OSError:
+                    pass
             shutil.rmtree(base, ignore_errors=True)
     return evs
 
 
-def run_scenarios(scenarios, binary, trace_path, jobs=12):
+def _run_chunk(args):
+    binary, items = args
+    return [run_one(i, sc, binary) for i, sc in items]
+
+
+def run_scenarios(scenarios, binary, trace_path, jobs=14):
     t0 = time.time()
-    with ThreadPoolExecutor(max_workers=jobs) as ex:
-        results = list(ex.map(lambda p: run_one(p[0], p[1], binary), list(enumerate(scenarios))))
+    items = list(enumerate(scenarios))
+    if len(items) <= 4:
+        results = [run_one(i, sc, binary) for i, sc in items]
+    else:
+        from concurrent.futures import ProcessPoolExecutor
+        size = max(1, min(50, len(items) // (jobs * 4) + 1))
+        chunks = [(binary, items[k:k + size]) for k in range(0, len(items), size)]
+        with ProcessPoolExecutor(max_workers=jobs) as ex:
+            results = [r for chunk in ex.map(_run_chunk, chunks) for r in chunk]
     with open(trace_path, "w") as f:
         for evs in results:
             for e in evs:
